@@ -857,7 +857,7 @@ PROPS = {
         "require": c12_require,
         "level": "fault_enumeration",
         "exhaustive": True,
-        "level_text": "Fault enumeration, exhaustive inside the grid: for every shape in packets 1..3 (quick) / 1..6 (thorough) x attachments {none, sender+region} x "
+        "level_text": "Fault enumeration, exhaustive inside the grid: for every shape in packets 1..3 (quick) / 1..6 (thorough) x attachments {none, foreign sender + region + a clone of the sender the message is sent on} x "
                       "surviving sender {0,1} x observer {recv, try_recv, select, router}, an exec'd child is SIGKILLed before the k-th socketpair/sendmsg/send/close "
                       "of the target send for every k from 0 to one past the last call (learned by a counting run); the observer runs before or after the crash "
                       "in alternation. Earlier messages must arrive intact, the target intact or not at all, Disconnected/closure only without a survivor, the "
@@ -920,7 +920,8 @@ PROPS = {
         "level_text": "Exploration: 1..200 (40 in quick) one-shot servers alive at once are each finished in one of five orders (client done and gone before accept; "
                       "accept first - sequenced by observing the thread inside accept(2); send/accept/send; dropped unused; dropped with a connected client), with "
                       "thread and exec'd-process clients sending 1..20 mixed messages with probed attachments; after every finished server and at the end the "
-                      "private TMPDIR and the descriptor table must be back to what they were.",
+                      "private TMPDIR and the descriptor table must be back to what they were. Names must be distinct among the servers alive together and over the whole "
+                      "life of the process (a finished server's name must never be handed out again).",
         "level_note": "Clients that must be gone before accept send less than the socket buffer. Close-on-exec of the accepted socket is C11's clause. "
                       "The in-process transport is checked for names and messages only.",
         "technique": "runtime monitoring: order-enumerating bootstrap scenarios with /proc-sequenced accept-first, message oracle and fd/TMPDIR balance checks",
